@@ -69,6 +69,53 @@ theorem specSort_pure (k : Item → Seq) (g : Item → List Int) (hk : ∀ x, ca
 
 end
 
+/-! ### function conversion rules -/
+
+theorem convItem_idem : ∀ (t : ITy) (x y : Item), convItem t x = .ok y → convItem t y = .ok y
+  | .item, x, y, h => by simp only [convItem, Except.ok.injEq] at h; subst h; rfl
+  | .func, x, y, h => by cases x <;> simp [convItem] at h <;> (subst h; rfl)
+  | .atomic, x, y, h => by cases x <;> simp [convItem] at h <;> (subst h; rfl)
+  | .integer, x, y, h => by cases x <;> simp [convItem] at h <;> (subst h; rfl)
+  | .decimal, x, y, h => by cases x <;> simp [convItem] at h <;> (subst h; rfl)
+  | .double, x, y, h => by cases x <;> simp [convItem] at h <;> (subst h; rfl)
+  | .boolean, x, y, h => by cases x <;> simp [convItem] at h <;> (subst h; rfl)
+
+theorem convItem_isFn (t : ITy) (x y : Item) (h : convItem t x = .ok y) : y.isFn = x.isFn := by
+  cases t <;> cases x <;> simp [convItem] at h <;> (subst h; rfl)
+
+theorem mapM_convItem (t : ITy) : ∀ (s s' : Seq), s.mapM (convItem t) = .ok s' →
+    s'.length = s.length ∧ s'.any Item.isFn = s.any Item.isFn ∧ s'.mapM (convItem t) = .ok s'
+  | [], s', h => by simp [List.mapM_nil, pure, Except.pure] at h; subst h; simp [pure, Except.pure]
+  | x :: xs, s', h => by
+    rw [List.mapM_cons] at h
+    simp only [bind, Except.bind] at h
+    cases hx : convItem t x with
+    | error e => simp [hx] at h
+    | ok y =>
+      cases hr : xs.mapM (convItem t) with
+      | error e => simp [hx, hr] at h
+      | ok ys =>
+        simp only [hx, hr, pure, Except.pure, Except.ok.injEq] at h
+        subst h
+        obtain ⟨h1, h2, h3⟩ := mapM_convItem t xs ys hr
+        refine ⟨by simp [h1], by simp [List.any_cons, h2, convItem_isFn t x y hx], ?_⟩
+        rw [List.mapM_cons]
+        simp [bind, Except.bind, convItem_idem t x y hx, h3, pure, Except.pure]
+
+/-- the function conversion rules are idempotent: a converted value converts to itself (this is why
+the fixed arguments of a partial application, converted when it is evaluated, may be handed to the
+conversion again at the call without changing anything) -/
+theorem convSeq_idem (t : STy) (s s' : Seq) (h : convSeq t s = .ok s') : convSeq t s' = .ok s' := by
+  unfold convSeq at h ⊢
+  by_cases h1 : (t.it.isAtomic && s.any Item.isFn) = true
+  · simp [h1] at h
+  · simp only [h1, Bool.false_eq_true, if_false] at h
+    by_cases h2 : t.occ.ok s.length = true
+    · simp only [h2, if_true] at h
+      obtain ⟨g1, g2, g3⟩ := mapM_convItem t.it s s' h
+      simp only [g1, g2, h1, h2, Bool.false_eq_true, if_false, if_true, g3]
+    · simp [h2] at h
+
 /-- calling a partial application = calling the underlying function item with the placeholders
 filled (specification) -/
 theorem specCall_partial (sev : Expr → SCtx → SM Seq) (h : SHeap) (a b : Nat) (o : SObj)
